@@ -134,7 +134,14 @@ fn field_attrs(f: &FieldSpec, concrete: bool, cat: &Catalogue, style: u8, type_p
     }
     let via = ty_str(&f.ty, cat);
     // `_o`: the same functions wrapped in `Some` (declared type `Option<Cv>`)
-    let o = if f.conv_opt_decl { "_o" } else { "" };
+    let o = if f.conv_opt_decl {
+        "_o"
+    } else if f.conv_same_decl {
+        // the same functions returning the intermediate type itself
+        "_s"
+    } else {
+        ""
+    };
     match f.conv {
         Conv::None => {}
         Conv::From { by_ref: false } => a.push(format!("from({via}) = {}", fn_path(&format!("from_inc{o}"), style))),
@@ -170,7 +177,10 @@ fn field_attrs(f: &FieldSpec, concrete: bool, cat: &Catalogue, style: u8, type_p
 }
 
 fn decl_ty(f: &FieldSpec, cat: &Catalogue) -> String {
-    if f.conv != Conv::None && f.conv_opt_decl {
+    if f.conv != Conv::None && f.conv_same_decl {
+        assert!(f.ty == pu8() && !f.has_default() && !f.skip && !f.map, "same-type conversions are declared on plain P<u8> fields");
+        ty_str(&f.ty, cat)
+    } else if f.conv != Conv::None && f.conv_opt_decl {
         assert!(!f.has_default() && !f.skip && !f.map, "Option<Cv> fields take no default / skip / map");
         "Option<Cv>".to_string()
     } else if f.conv != Conv::None {
